@@ -40,6 +40,10 @@ import (
 // process-start(K-D) (all of K-D..K-1 are indexed and queued, none processed)
 // while the consensus thread runs into the crash point inside Accept(K).
 //
+// Race (accepter-side points only): the consensus thread does not get to finish
+// Accept(K+D): it is stopped right after handing K+D to the accepted queue, and
+// the accepter runs into the crash point while that Accept call is in progress.
+//
 // Mode "kill": the follower is SIGKILLed DelayUs microseconds after it started
 // accepting heights 1..Target, with the accepter held at process-start(Hold)
 // until Target is indexed (Hold = 0: free running).
@@ -54,6 +58,7 @@ type c18Case struct {
 	D       uint64 `json:"d,omitempty"`
 	N       uint64 `json:"n"`
 	Boot    bool   `json:"boot,omitempty"`
+	Race    bool   `json:"race,omitempty"`
 	Hold    uint64 `json:"hold,omitempty"`
 	Target  uint64 `json:"target,omitempty"`
 	DelayUs int    `json:"delay_us,omitempty"`
@@ -62,7 +67,7 @@ type c18Case struct {
 }
 
 func (c c18Case) canonical() string {
-	return fmt.Sprintf("%s|%s|k%d|d%d|n%d|b%v|h%d|t%d|%s@%d", c.Mode, c.Point, c.K, c.D, c.N, c.Boot, c.Hold, c.Target, c.Crash2, c.Crash2K)
+	return fmt.Sprintf("%s|%s|k%d|d%d|n%d|b%v|r%v|h%d|t%d|%s@%d", c.Mode, c.Point, c.K, c.D, c.N, c.Boot, c.Race, c.Hold, c.Target, c.Crash2, c.Crash2K)
 }
 
 // valid says whether the case denotes a schedule that exists.
@@ -88,6 +93,9 @@ func (c c18Case) valid() error {
 			}
 		} else if c.K+c.D > c.N {
 			return fmt.Errorf("d out of range for an accepter-side point")
+		}
+		if c.Race && consensusPoint(c.Point) {
+			return fmt.Errorf("race applies to accepter-side points only")
 		}
 		if c.Crash2 != "" && c.Crash2 != ptResults && c.Crash2 != ptCommitted {
 			return fmt.Errorf("second crash point %q is not on the recovery path", c.Crash2)
@@ -117,6 +125,9 @@ func (c c18Case) follow() childParams {
 	default:
 		p.Point, p.K, p.Target = c.Point, c.K, c.K+c.D
 		p.Hold, p.SyncBelow = c.K, c.K
+		if c.Race {
+			p.RaceAtQueued = p.Target
+		}
 	}
 	return p
 }
@@ -260,12 +271,13 @@ func runChild(p childParams, paramFile string, killAfter time.Duration) (res chi
 	cmd := exec.CommandContext(ctx, os.Args[0])
 	env := []string{"C18_CHILD=" + paramFile}
 	for _, kv := range os.Environ() {
-		if strings.HasPrefix(kv, "VERIF_") || strings.HasPrefix(kv, "C18_CHILD=") {
+		if strings.HasPrefix(kv, "VERIF_") || strings.HasPrefix(kv, "C18_CHILD=") || strings.HasPrefix(kv, "GOMAXPROCS=") {
 			continue
 		}
 		env = append(env, kv)
 	}
-	cmd.Env = env
+	// a node process is happy with a few cores; many run side by side
+	cmd.Env = append(env, "GOMAXPROCS=4")
 	var stderr bytes.Buffer
 	cmd.Stderr = &stderr
 	t0 := time.Now()
@@ -291,6 +303,13 @@ func runChild(p childParams, paramFile string, killAfter time.Duration) (res chi
 	<-done
 	err = cmd.Wait()
 	res.Stderr = tail(stderr.String(), 1500)
+	if raw, err := os.ReadFile(p.Progress + ".stacks"); err == nil {
+		// the child's watchdog fired: keep where it was for the record
+		keep := filepath.Join(os.TempDir(), fmt.Sprintf("c18-hung-child-%d-%d.stacks", os.Getpid(), time.Now().UnixNano()))
+		if os.WriteFile(keep, raw, 0o644) == nil {
+			res.Stderr += " | goroutines of the hung child: " + keep
+		}
+	}
 	if ctx.Err() != nil {
 		res.TimedOut = true
 	}
@@ -492,17 +511,26 @@ func c18Judge(c c18Case, o c18Outcome, st *vstat.Stats) error {
 	resH := maxPoint(o.Progress, ptResults)
 	notifiedH := maxPoint(o.Progress, ptNotified)
 
-	// c and the admissible range of the restarted node's last accepted height
-	cLo, cHi := idx, idx
+	// c: the node had accepted 1..c when it died. The chain-index update of a
+	// block is the durable act of accepting it (hook point index-updated); a
+	// block whose Accept call returned to the engine is accepted whatever the
+	// code wrote.
+	accRet := maxPoint(o.Progress, "accept-returned")
+	cLo := max(idx, accRet)
+	cHi := cLo
 	if c.Mode == "kill" {
 		// the kill may fall between the index batch and the hook's log line
 		if cHi < c.Target {
-			cHi = idx + 1
+			cHi++
 		}
 	} else {
 		fp := c.follow()
-		if idx != fp.Target {
-			return errInconclusive{fmt.Sprintf("schedule not achieved: indexed %d, planned %d", idx, fp.Target)}
+		wantRet := fp.Target
+		if consensusPoint(c.Point) || c.Race {
+			wantRet = fp.Target - 1 // the crash happens inside Accept(Target)
+		}
+		if accRet != wantRet {
+			return errInconclusive{fmt.Sprintf("schedule not achieved: Accept returned up to %d, planned %d", accRet, wantRet)}
 		}
 	}
 	gap := int64(cLo) - int64(stateH)
@@ -511,6 +539,11 @@ func c18Judge(c c18Case, o c18Outcome, st *vstat.Stats) error {
 	labels := []string{"mode:" + c.Mode}
 	if c.Mode == "exit" {
 		labels = append(labels, "point:"+c.Point)
+		if consensusPoint(c.Point) {
+			labels = append(labels, "side:consensus-thread")
+		} else {
+			labels = append(labels, "side:accepter-thread")
+		}
 		if c.D == 0 {
 			labels = append(labels, "backlog=0")
 		} else {
@@ -549,6 +582,9 @@ func c18Judge(c c18Case, o c18Outcome, st *vstat.Stats) error {
 	default:
 		labels = append(labels, "index-state>=2")
 	}
+	if gap <= 1 {
+		labels = append(labels, "index-state<=1")
+	}
 	if resH > stateH {
 		labels = append(labels, "results-ahead-of-state")
 	}
@@ -557,6 +593,9 @@ func c18Judge(c c18Case, o c18Outcome, st *vstat.Stats) error {
 	}
 	if c.Boot {
 		labels = append(labels, "follower-bootstrapping")
+	}
+	if c.Race {
+		labels = append(labels, "accept-call-in-progress")
 	}
 	if c.Crash2 != "" {
 		if o.Mid != nil && o.Mid.Exit == exitCrashPoint {
@@ -570,7 +609,7 @@ func c18Judge(c c18Case, o c18Outcome, st *vstat.Stats) error {
 	st.Sample(nontrivial, map[string]any{"case": c, "indexed": idx, "state": stateH, "results": resH,
 		"notified": notifiedH, "pre_deliveries": heightsOf(o.PreLog), "post_deliveries": heightsOf(o.PostLog)})
 
-	where := fmt.Sprintf("[crash: indexed=%d state=%d results=%d notified=%d index-state=%d]", idx, stateH, resH, notifiedH, gap)
+	where := fmt.Sprintf("[crash: accept-returned=%d indexed=%d state=%d results=%d notified=%d index-state=%d]", accRet, idx, stateH, resH, notifiedH, gap)
 
 	// ---- 1. restart succeeds
 	if o.Mid != nil && o.Mid.Exit != 0 && o.Mid.Exit != exitCrashPoint {
@@ -727,8 +766,15 @@ func c18GenExit(rt *rapid.T) c18Case {
 	if consensusPoint(c.Point) {
 		maxD = c.K - 1
 	}
-	c.D = uint64(rapid.IntRange(0, int(maxD)).Draw(rt, "d"))
+	// a third of the cases have no backlog (the restart paths for index == state
+	// and index == state+1 differ from the general one)
+	if rapid.IntRange(0, 2).Draw(rt, "no_backlog") != 0 {
+		c.D = uint64(rapid.IntRange(0, int(maxD)).Draw(rt, "d"))
+	}
 	c.Boot = rapid.IntRange(0, 3).Draw(rt, "boot") == 0
+	if !consensusPoint(c.Point) {
+		c.Race = rapid.Bool().Draw(rt, "race")
+	}
 	// second-order crash: recovery re-accepts the blocks state+1..index through
 	// vm.AcceptBlock; let the first restart die inside one of them
 	if index, state := c.planned(); index > state && rapid.IntRange(0, 2).Draw(rt, "second_crash") == 0 {
@@ -749,7 +795,7 @@ func c18GenKill(rt *rapid.T) c18Case {
 	return c
 }
 
-const c18Rule = "a follower node (real vm.VM in snow.VM on pebble) accepts the producer's chain and dies by os.Exit inside hook point P of block k with backlog d (blocks indexed+queued but unprocessed), then a new process restarts on the same directory, reports, and catches up to N; non-trivial = backlog d>=1 or index-state>=2 at the crash; distinct by (point,k,d,N,bootstrapping)"
+const c18Rule = "a follower node (real vm.VM in snow.VM on pebble) accepts the producer's chain and dies by os.Exit inside hook point P of block k with backlog d (blocks indexed+queued but unprocessed), then a new process restarts on the same directory, reports, and catches up to N; non-trivial = backlog d>=1 or index-state>=2 at the crash; with probability 1/2 (accepter-side points) the last Accept call is still in progress at the crash, and with probability 1/3 the first restart dies too (inside the re-accept of a generated block of the backlog) so that a second restart is judged; distinct by (point,k,d,N,bootstrapping,race,second crash)"
 
 // ---------------------------------------------------------------------------
 // tests
@@ -810,7 +856,7 @@ func TestC18Kill(t *testing.T) {
 }
 
 // c18Grid is the complete finite grid point x k x d for a chain of n blocks.
-func c18Grid(n uint64, boot bool) []c18Case {
+func c18Grid(n uint64, boot, race bool) []c18Case {
 	var out []c18Case
 	for _, p := range allPoints {
 		for k := uint64(1); k <= n; k++ {
@@ -819,7 +865,10 @@ func c18Grid(n uint64, boot bool) []c18Case {
 				maxD = k - 1
 			}
 			for d := uint64(0); d <= maxD; d++ {
-				out = append(out, c18Case{Mode: "exit", Point: p, K: k, D: d, N: n, Boot: boot})
+				if race && consensusPoint(p) {
+					continue
+				}
+				out = append(out, c18Case{Mode: "exit", Point: p, K: k, D: d, N: n, Boot: boot, Race: race})
 			}
 		}
 	}
@@ -897,12 +946,13 @@ func c18RunGrid(t *testing.T, st *vstat.Stats, cases []c18Case) {
 // d) for a chain of 8 blocks, in normal operation and while bootstrapping.
 func TestC18Exhaustive(t *testing.T) {
 	defer cleanupWork()
-	st := vstat.New(t, "C18", "exhaustive: every (crash point P in the 7 hook points) x (block k in 1..8) x (backlog d in 0..8-k for accepter-side points, 0..k-1 for consensus-side points), follower in normal operation and in bootstrapping state, N=8")
+	st := vstat.New(t, "C18", "exhaustive: every (crash point P in the 7 hook points) x (block k in 1..8) x (backlog d in 0..8-k for accepter-side points, 0..k-1 for consensus-side points), follower in normal operation and in bootstrapping state, plus every accepter-side cell again with the last Accept call still in progress, N=8")
 	st.Exhaustive = true
-	cases := append(c18Grid(8, false), c18Grid(8, true)...)
+	cases := append(c18Grid(8, false, false), c18Grid(8, true, false)...)
+	cases = append(cases, c18Grid(8, false, true)...)
 	if dev := os.Getenv("C18_DEV_GRID"); dev != "" { // development only: a smaller grid
 		n, _ := strconv.Atoi(dev)
-		cases = c18Grid(uint64(n), false)
+		cases = append(c18Grid(uint64(n), false, false), c18Grid(uint64(n), false, true)...)
 		st.Exhaustive = false
 	}
 	c18RunGrid(t, st, cases)
